@@ -607,6 +607,186 @@ func firstDiff(want, got []int) string {
 	return "?"
 }
 
+// ---- reference-like elements ----
+// The searches above use []int.  A function may treat elements that are references (slices, interfaces = union
+// values, pointers) specially - "clear the popped slot so that the garbage collector can free it".  This phase
+// explores every sequence of `depth` calls over a reduced menu on slices of such elements, every produced value
+// kept live, from a literal with exact capacity and one with spare capacity.
+func refPhase[E any](kind string, mk func(int) E, eq func(a, b E) bool, depth int) {
+	type rv struct {
+		s, want []E
+		how     string
+	}
+	type rop struct {
+		fn   string
+		m, o int
+		n    int
+	}
+	fresh := 0
+	next := func() E { fresh++; return mk(100 + fresh) }
+	same := func(a, b []E) bool {
+		if len(a) != len(b) {
+			return false
+		}
+		for i := range a {
+			if !eq(a[i], b[i]) {
+				return false
+			}
+		}
+		return true
+	}
+	build := func(root int, hist []rop) ([]*rv, bool) {
+		fresh = 0
+		var s []E
+		if root == 0 {
+			s = []E{mk(1), mk(2), mk(3)}
+		} else {
+			s = append(make([]E, 0, 6), mk(1), mk(2), mk(3))
+		}
+		live := []*rv{{s: s, want: append([]E{}, s...), how: "root"}}
+		for _, o := range hist {
+			if o.m >= len(live) || o.o >= len(live) {
+				return nil, false
+			}
+			a, b := live[o.m].s, live[o.o].s
+			var res []E
+			isSlice := true
+			switch o.fn {
+			case "PushLast":
+				res = slice.PushLast(next(), a)
+			case "PushHead":
+				res = slice.PushHead(next(), a)
+			case "PopLast":
+				if len(a) == 0 {
+					return nil, false
+				}
+				res = slice.PopLast(a)
+			case "Tail":
+				if len(a) == 0 {
+					return nil, false
+				}
+				res = slice.Tail(a)
+			case "Take":
+				if o.n > len(a) {
+					return nil, false
+				}
+				res = slice.Take(o.n, a)
+			case "Skip":
+				if o.n > len(a) {
+					return nil, false
+				}
+				res = slice.Skip(o.n, a)
+			case "Append":
+				res = slice.Append(a, b)
+			case "Concat":
+				res = slice.Concat([][]E{a, b})
+			case "Map":
+				res = slice.Map(func(x E) E { return x }, a)
+			case "Mapi":
+				res = slice.Mapi(func(i int, x E) E { return x }, a)
+			case "FilterAll":
+				res = slice.Filter(func(x E) bool { return true }, a)
+			case "FilterNone":
+				res = slice.Filter(func(x E) bool { return false }, a)
+			case "Collect":
+				res = slice.Collect(func(x E) []E { return []E{x} }, a)
+			case "Observers":
+				isSlice = false
+				slice.Length(a)
+				slice.IsEmpty(a)
+				if len(a) > 0 {
+					slice.Head(a)
+					slice.Last(a)
+					slice.Item(len(a)-1, a)
+				}
+				slice.Iter(func(E) {}, a)
+				slice.Forall(func(E) bool { return true }, a)
+				slice.Forany(func(E) bool { return false }, a)
+				slice.TryFind(func(E) bool { return false }, a)
+				slice.Fold(func(n int, x E) int { return n + 1 }, 0, a)
+				if len(a) == len(b) {
+					slice.Zip(a, b)
+				}
+			}
+			if isSlice {
+				live = append(live, &rv{s: res, want: append([]E{}, res...), how: fmt.Sprintf("%s(m%d)", o.fn, o.m)})
+			}
+		}
+		return live, true
+	}
+	fns := []string{"PushLast", "PushHead", "PopLast", "Tail", "Map", "Mapi", "FilterAll", "FilterNone", "Collect", "Observers"}
+	var rec func(root int, hist []rop, left int)
+	rec = func(root int, hist []rop, left int) {
+		if rep.TooMany() {
+			return
+		}
+		live0, ok := build(root, hist)
+		if !ok {
+			return
+		}
+		var menu []rop
+		for m := range live0 {
+			for _, f := range fns {
+				menu = append(menu, rop{fn: f, m: m, o: m})
+			}
+			ln := len(live0[m].s)
+			for _, n := range []int{0, 1, ln} {
+				if n <= ln {
+					menu = append(menu, rop{fn: "Take", m: m, o: m, n: n}, rop{fn: "Skip", m: m, o: m, n: n})
+				}
+			}
+			for o := range live0 {
+				menu = append(menu, rop{fn: "Append", m: m, o: o}, rop{fn: "Concat", m: m, o: o})
+			}
+		}
+		for _, o := range menu {
+			h := append(append([]rop{}, hist...), o)
+			live, ok := build(root, h)
+			if !ok {
+				continue
+			}
+			rep.Trans++
+			rep.Evals++
+			rep.Validated++
+			rep.H("ref:"+kind+":"+o.fn, 1)
+			bad := ""
+			for i, v := range live {
+				if !same(v.s, v.want) {
+					bad = fmt.Sprintf("value m%d (produced by %s) no longer has the elements it was produced with (length %d)", i, v.how, len(v.want))
+					break
+				}
+			}
+			if bad != "" {
+				hs := fmt.Sprintf("elements: %s; root%d", kind, root)
+				for _, x := range h {
+					hs += fmt.Sprintf(" ; %s(m%d", x.fn, x.m)
+					if x.fn == "Append" || x.fn == "Concat" {
+						hs += fmt.Sprintf(",m%d", x.o)
+					}
+					if x.fn == "Take" || x.fn == "Skip" {
+						hs += fmt.Sprintf(",n=%d", x.n)
+					}
+					hs += ")"
+				}
+				rep.O("mutated")
+				rep.V("C12:"+o.fn, fmt.Sprintf("slice.%s changed an existing slice value: %s; history: %s", o.fn, bad, hs), map[string]any{"history": hs, "observed": bad})
+				continue
+			}
+			rep.O("intact")
+			if left > 1 && len(live) > len(live0) {
+				rec(root, h, left-1)
+			}
+		}
+	}
+	for root := 0; root < 2; root++ {
+		rec(root, nil, depth)
+		rep.Distinct++
+		rep.Nontrivial++
+	}
+}
+
+type boxed struct{ v int }
+
 func histString(root int, hist []op) string {
 	parts := []string{fmt.Sprintf("root%d", root)}
 	for _, o := range hist {
@@ -737,6 +917,13 @@ func main() {
 		} else {
 			longPhase([]int{9, 13, 17, 33, 65}, nil)
 		}
+	}
+	if !rep.TooMany() {
+		rd := 3
+		refPhase("slices ([][]int)", func(i int) []int { return []int{i, i + 1} }, func(a, b []int) bool { return eq(a, b) }, rd)
+		refPhase("interface values (any holding a struct, like union cases)", func(i int) any { return boxed{i} }, func(a, b any) bool { return a == b }, rd)
+		refPhase("pointers (*int)", func(i int) *int { v := i; return &v }, func(a, b *int) bool { return (a == nil) == (b == nil) && (a == nil || *a == *b) }, rd)
+		rep.Extra["reference_like_element_kinds"] = 3
 	}
 	rep.Extra["depth_completed"] = completed
 	rep.Extra["depth_bound"] = depth
